@@ -209,6 +209,40 @@ v('next-stops-at-equal','C06.window-next','vtable_common.go','''				if c.ltMax &
 v('next-skips-min-always','C06.window-next','vtable_common.go','''			if c.min != nil && c.gtMin && k.(*Key).Order(c.min) == 0 {''','''			if c.min != nil && k.(*Key).Order(c.min) == 0 {''')
 v('next-desc-stops-above-min','C06.window-next','vtable_common.go','''				if c.gtMin && cmp <= 0 || cmp < 0 {''','''				if c.gtMin && cmp <= 0 || cmp > 0 {''')
 
+v('write-time-local-zone','C02.utc','sqlite/s3db_conn.go','''			newWriteTime, err = time.Parse(s3db.SQLiteTimeFormat, writeTime.Text())''','''			newWriteTime, err = time.ParseInLocation(s3db.SQLiteTimeFormat, writeTime.Text(), time.Local)''')
+v('clone-copies-handle','C05.clone-deep','kv/internal/crdt/crdt.go','''	clone := c
+	clonedMast, err := c.Mast.Clone(ctx)
+	if err != nil {
+		return nil, err
+	}
+	clone.Mast = &clonedMast
+	return &clone, nil''','''	clone := c
+	if !c.Mast.IsDirty() {
+		m := *c.Mast
+		clone.Mast = &m
+		return &clone, nil
+	}
+	clonedMast, err := c.Mast.Clone(ctx)
+	if err != nil {
+		return nil, err
+	}
+	clone.Mast = &clonedMast
+	return &clone, nil''')
+v('column-honours-nochange','C01.column-always-answers','sqlite/vtable.go','''	v, err := c.common.Column(i)
+	if err != nil {
+		return toSqlite(err)
+	}
+	setContextResult(ctx, v, i)''','''	if i > 0 && ctx.NoChange() {
+		return nil
+	}
+	v, err := c.common.Column(i)
+	if err != nil {
+		return toSqlite(err)
+	}
+	setContextResult(ctx, v, i)''')
+v('evict-key-without-slash','C09.gc-evicts-cache','kv/kv.go','''			cache.Remove(fmt.Sprintf("%s/%s", s.persist.NodeURLPrefix(), l))''','''			cache.Remove(s.persist.NodeURLPrefix() + l)''')
+v('evict-key-name-first','C09.gc-evicts-cache','kv/kv.go','''			cache.Remove(fmt.Sprintf("%s/%s", s.persist.NodeURLPrefix(), l))''','''			cache.Remove(fmt.Sprintf("%s/%s", l, s.persist.NodeURLPrefix()))''')
+
 outdir=HERE+'/checker/selftest/variants'
 for f in os.listdir(outdir):
     if f.startswith('hc-'): os.remove(outdir+'/'+f)
